@@ -72,7 +72,8 @@ def gen_reconnect(seed, opts=None):
     plan['horizon'] = t + 2 * P * MS * 3 + 0.5
     if (opts or {}).get('lease') or rng.random() < 0.25:
         # lease-honouring client; every server publishes its lease a little after the connection is up
-        plan['lease'] = {'delay': _pick(rng, [(1, 0.0), (2, 0.005), (2, 0.05), (1, 0.15)]), 'n': _pick(rng, [(1, 3), (3, 1000)]),
+        late = [(3, 0.45)] if (opts or {}).get('lease') else []  # a lease that arrives after the first request of the connection
+        plan['lease'] = {'delay': _pick(rng, [(1, 0.0), (1, 0.005), (1, 0.05)] + late), 'n': _pick(rng, [(1, 3), (3, 1000)]),
                          'ttl_us': 600_000_000}
     return plan
 
